@@ -403,19 +403,22 @@ Qed.
 
 (** * The candidates against the ledger *)
 
-(** An output the ledger regards as spendable at [now]. *)
-Record ledger_spendable (U : universe) (F : facts) (now : Z) (u : utxo) : Prop := {
-  ls_tx : tx;
-  ls_chg : bool;
-  ls_in_universe : U !! (u_op u).1 = Some ls_tx;
+(** An output the ledger regards as spendable at [now]: a credited output
+    ([ls_credited]) of a known transaction [t], which no known transaction
+    spends and which is not leased. *)
+Record ledger_spendable_at (U : universe) (F : facts) (now : Z) (u : utxo) (t : tx) (chg : bool) : Prop := {
+  ls_in_universe : U !! (u_op u).1 = Some t;
   ls_known : known F (u_op u).1 = true;
-  ls_credited : ((u_op u).2, ls_chg) ∈ t_creds ls_tx;
-  ls_amount : u_amt u = out_amount ls_tx (u_op u).2;
-  ls_coinbase : u_coinbase u = t_coinbase ls_tx;
+  ls_credited : ((u_op u).2, chg) ∈ t_creds t;
+  ls_amount : u_amt u = out_amount t (u_op u).2;
+  ls_coinbase : u_coinbase u = t_coinbase t;
   ls_height : u_height u = match f_conf F !! (u_op u).1 with Some (h, _) => h | None => -1 end;
   ls_unspent : spent_by_known U F (u_op u) = false;
   ls_unleased : leased F (u_op u) now = false;
 }.
+
+Definition ledger_spendable (U : universe) (F : facts) (now : Z) (u : utxo) : Prop :=
+  ∃ t chg, ledger_spendable_at U F now u t chg.
 
 (** Confirmations of a transaction in ledger terms. *)
 Definition ledger_confs (F : facts) (t : txid) (cur : Z) : Z :=
@@ -434,21 +437,18 @@ Section ledger.
     intros Hu. apply (elem_of_unspent_outputs U s F Hwf HI) in Hu
       as (t & i & chg & Hin & Hsp & Hl & ->).
     apply (elem_of_credited_outputs U F Hwf) in Hin as (Hk & Ht & Hc).
-    rewrite (mk_utxo_op F).
-    assert (mk_utxo F t i = mk_utxo F t i) as _ by done.
-    unfold mk_utxo. destruct (f_conf F !! t_id t) as [[h bh]|] eqn:Hconf; simpl.
-    - eapply (Build_ledger_spendable _ _ _ _ t chg); simpl; try done.
-      + by apply (known_true F).
-      + by rewrite Hconf.
-    - eapply (Build_ledger_spendable _ _ _ _ t chg); simpl; try done.
-      + by apply (known_true F).
-      + by rewrite Hconf.
+    exists t, chg. unfold mk_utxo.
+    destruct (f_conf F !! t_id t) as [[h bh]|] eqn:Hconf; split; simpl; try done.
+    - by apply (known_true F).
+    - by rewrite Hconf.
+    - by apply (known_true F).
+    - by rewrite Hconf.
   Qed.
 
   Lemma ledger_spendable_confirms now u cur :
     ledger_spendable U F now u → confirms (u_height u) cur = ledger_confs F (u_op u).1 cur.
   Proof.
-    intros Hls. unfold confirms, ledger_confs. rewrite (ls_height _ _ _ _ Hls).
+    intros (t & chg & Hls). unfold confirms, ledger_confs. rewrite (ls_height _ _ _ _ _ _ Hls).
     destruct (f_conf F !! (u_op u).1) as [[h bh]|] eqn:Hc; [|done].
     pose proof (fw_heights_nonneg U F (inv_wf U s F HI) _ _ _ Hc) as Hh.
     rewrite (bool_decide_eq_false_2 (h = -1)) by lia. simpl. done.
@@ -483,7 +483,7 @@ Section ledger.
   Proof.
     intros Hk Hop Hin. rewrite cands_of_ops, map_fmap in Hin.
     apply elem_of_list_fmap in Hin as (u & -> & Hu).
-    apply unspent_outputs_ledger in Hu. pose proof (ls_unspent _ _ _ _ Hu) as Hsp.
+    apply unspent_outputs_ledger in Hu as (t0 & chg0 & Hu). pose proof (ls_unspent _ _ _ _ _ _ Hu) as Hsp.
     unfold spent_by_known in Hsp.
     assert (existsb (λ t0, spends U t0 (u_op u)) (known_list F) = true) as Hex; [|congruence].
     apply existsb_exists. exists t. split.
